@@ -56,6 +56,8 @@ type harnessOut struct {
 	Error         string              `json:"error,omitempty"`
 }
 
+var repoRoot = "/repo/"
+
 type runOut struct {
 	Pkg       string       `json:"pkg"`
 	Tier      string       `json:"tier"`
@@ -77,6 +79,7 @@ func main() {
 	twin := flag.Bool("twin", false, "vacuity twin: all assertions replaced by false")
 	replay := flag.String("replay", "", "comma-separated decision vector to replay (single function)")
 	flag.Parse()
+	repoRoot = strings.TrimSuffix(*repo, "/") + "/"
 
 	ro := runOut{Pkg: *pkg, Tier: *tier}
 	fail := func(err error) {
